@@ -532,11 +532,10 @@ spec fn rows_kept(g: AdjacencyList, rows: Seq<BTreeSet<usize>>) -> bool {
 }
 
 impl AdjacencyList {
-    /*@fn impl=AdjacencyList trait=From implhas='impl<I> From<I>' name=from subst=I=>Vec<BTreeSet<usize>> drop=I dropwhere=I props=C14,C13
+    /*@fn impl=AdjacencyList trait=From implhas='impl<I> From<I>' name=from subst=I=>Vec<BTreeSet<usize>> drop=I dropwhere=I props=C14,C13 iterinline=arcs=>@literal
     ensures
         r.wf(),
         rows_kept(r, iter@),
-    @manual `for (u, v) in digraph.arcs()` => `let mut arcs_it = ArcsIterator { arcs: &digraph.arcs, u: 0, inner: None }; while let Some((u, v)) = arcs_it.next()` :: E8b (iterinline) needs the iterator-returning method to be `Ctor(self)`; AdjacencyList::arcs is the struct literal `ArcsIterator { arcs: &self.arcs, u: 0, inner: None }` returned as `impl Iterator` (subst cannot rewrite an impl-Trait return type), inlined here by hand together with the language-defined for-desugaring
     @loop 1
     invariant
         arcs_it.inv(),
@@ -587,6 +586,11 @@ spec fn cycle_arc(n: int, a: int, b: int) -> bool {
 /// path(n) has i -> i+1 for i < n-1
 spec fn path_arc(n: int, a: int, b: int) -> bool {
     0 <= a < n - 1 && b == a + 1
+}
+
+/// biclique(m, n) has u <-> v exactly for u < m <= v < m+n
+spec fn biclique_arc(m: int, n: int, a: int, b: int) -> bool {
+    (0 <= a < m && m <= b < m + n) || (0 <= b < m && m <= a < m + n)
 }
 
 // ---- proof helpers: `% n` free form of the circuit predicate ----
@@ -684,6 +688,34 @@ impl AdjacencyList {
                     vstd::arithmetic::div_mod::lemma_small_mod((u - 1) as nat, n as nat);
                 }
             }
+        }
+    @*/
+
+    /*@fn impl=AdjacencyList trait=Biclique name=biclique props=C14,C13
+    ensures
+        m >= 1 && n >= 1,
+        r.wf(),
+        r.ord() == m + n,
+        forall|a: int, b: int| #![trigger r.has(a, b)] r.has(a, b) == biclique_arc(m as int, n as int, a, b),
+    @fn_start
+        broadcast use vstd::std_specs::iter::group_iter_axioms;
+        broadcast use axiom_btree_set_from_iter;
+    @after `let clique_2 =`
+        proof {
+            let rem1 = (core::ops::Range { start: 0usize, end: m }).remaining();
+            let rem2 = (core::ops::Range { start: m, end: order }).remaining();
+            assert forall|x: usize| #[trigger] clique_1@.contains(x) == (x < m) by {
+                if x < m { assert(rem1[x as int] == x); }
+            }
+            assert forall|x: usize| #[trigger] clique_2@.contains(x) == (m <= x < order) by {
+                if m <= x < order { assert(rem2[x - m] == x); }
+            }
+        }
+    @fn_end
+        proof {
+            assert(arcs@.len() == m + n);
+            assert forall|i: int| 0 <= i < m implies (#[trigger] arcs@[i])@ == clique_2@ by {}
+            assert forall|i: int| m <= i < m + n implies (#[trigger] arcs@[i])@ == clique_1@ by {}
         }
     @*/
 }
